@@ -184,6 +184,18 @@ func init() {
 			}
 			jobs = append(jobs, run.Job{ID: "unpack-operation", Pkg: run.Module, Harness: "H_UnpackOperation", Params: map[string]interface{}{}, CoverModels: true})
 			jobs = append(jobs, run.Job{ID: "roundtrip", Pkg: run.Module, Harness: "H_RoundTrip", Params: map[string]interface{}{}})
+			// the same obligations on byte-vector strings (every length up to two more than the longest name)
+			for n := 0; n <= 14; n++ {
+				for _, o := range []string{"asc", "desc"} {
+					if o == "desc" && c.Tier != "thorough" && n%4 != 0 {
+						continue
+					}
+					jobs = append(jobs, run.Job{ID: fmt.Sprintf("unpack-action-bytes/len%d/%s", n, o), Pkg: run.Module, Harness: "H_UnpackActionBytes", Params: map[string]interface{}{"order": o, "len": n}})
+				}
+			}
+			for n := 0; n <= 16; n++ {
+				jobs = append(jobs, run.Job{ID: fmt.Sprintf("unpack-operation-bytes/len%d", n), Pkg: run.Module, Harness: "H_UnpackOperationBytes", Params: map[string]interface{}{"len": n}})
+			}
 			return jobs, nil
 		},
 		Extra: func(c *Ctx) ([]Finding, error) {
@@ -206,10 +218,10 @@ func init() {
 			}
 			return fs, nil
 		},
-		NeedCovers: []string{"cover.unpack.ok", "cover.unpack.rejected", "cover.unpack.case_variant", "cover.unpack_op.ok", "cover.unpack_op.rejected", "cover.roundtrip"},
-		Bounds:     map[string]interface{}{"strings": "all strings (equality atoms; case variants through lower())", "values": "all 2^32 action words for printing; the seven actions and eight operations for round trips", "tags": "every exported field of the four policy structs"},
+		NeedCovers: []string{"cover.unpack.ok", "cover.unpack.rejected", "cover.unpack.case_variant", "cover.unpack_op.ok", "cover.unpack_op.rejected", "cover.roundtrip", "cover.unpack_bytes.ok", "cover.unpack_bytes.rejected", "cover.unpack_op_bytes.ok", "cover.unpack_op_bytes.rejected"},
+		Bounds:     map[string]interface{}{"strings": "all strings (equality atoms; case variants through lower()); additionally every string of up to 14 (actions) / 16 (operations) 7-bit ASCII characters as a byte vector, for code that looks at length, prefixes or single characters", "values": "all 2^32 action words for printing; the seven actions and eight operations for round trips", "tags": "every exported field of the four policy structs"},
 		Outside:    []string{"the behaviour of go-ucfg, yaml.v2 and encoding/json themselves (reflection-driven): quoting, defaults, and numeric fidelity of 64-bit operands through the text form - a design-time probe showed the JSON path (go-ucfg/json reads numbers as float64) rounding operands above 2^53; that is library behaviour this technique cannot encode and is not part of the claim", "the YAML/JSON syntax produced"},
 		Assumptions: []string{"yaml.v2 / encoding/json write a field under its yaml / json tag name and go-ucfg reads it under its config tag name, defaulting a missing key silently (library contract)", "documented names: the seven action names of the README / example policy and the eight operation names"},
-		Trusted:    []string{"equality-atom string encoding with uninterpreted lower()", "gosym engine; models replayed natively", "z3/cvc5", "go/types reading of the struct tags"},
+		Trusted:    []string{"equality-atom string encoding with uninterpreted lower(); byte-vector strings with strings.ToLower/ToUpper/EqualFold/HasPrefix/HasSuffix as per-byte ASCII case mapping", "gosym engine; models replayed natively", "z3/cvc5", "go/types reading of the struct tags"},
 	})
 }
